@@ -196,15 +196,21 @@ Section Loops.
       { intro Hin. apply NoDup_remove_2 in ND. apply ND. apply in_or_app. left. exact Hin. }
       rewrite (dict_set_new v _ d Hv).
       rewrite (IH ts (d ++ [(v, @select R ROps s t)]) _ _ eq_refl).
-      + f_equal. f_equal; [f_equal|].
-        * rewrite <- app_assoc. reflexivity.
-        * cbn [rev]. destruct (rev ts) as [|[v' t'] q] eqn:Erev; [reflexivity|]. reflexivity.
-        * destruct r; reflexivity.
-      + rewrite map_app. cbn [map fst]. rewrite <- app_assoc. cbn [app].
-        apply NoDup_remove_1 in ND as ND1. 
-        assert (H := ND). rewrite <- app_assoc. cbn [app].
-        clear -ND. revert ND. generalize (map fst d) as l. intros l ND.
-        (* NoDup (l ++ v :: r) -> NoDup (l ++ [v] ++ r) *) exact ND.
+      + assert (EA : (d ++ [(v, @select R ROps s t)]) ++ map ser ts = d ++ map ser ((v, t) :: ts))
+          by (rewrite <- app_assoc; reflexivity).
+        assert (EB : match rev ts with
+                     | (_, t0) :: _ => Some (fst (@select R ROps s t0))
+                     | [] => Some (fst (@select R ROps s t))
+                     end =
+                     match rev ((v, t) :: ts) with
+                     | (_, t0) :: _ => Some (fst (@select R ROps s t0))
+                     | [] => xa
+                     end).
+        { cbn [rev]. destruct (rev ts) as [|[v' t'] q]; reflexivity. }
+        assert (EC : match r with [] => Some (@sel_y R s) | _ :: _ => Some (@sel_y R s) end = Some (@sel_y R s))
+          by (destruct r; reflexivity).
+        rewrite EA, EB, EC. reflexivity.
+      + rewrite map_app. cbn [map fst]. rewrite <- app_assoc. exact ND.
   Qed.
 
   Lemma loop1_none : forall vars st, load_all load vars = None -> py_for (step1 load s) vars st = None.
@@ -224,7 +230,8 @@ Section Loops.
     Some (x, done ++ map (fun vt => (fst vt, @align R ROps x (@select R ROps s (snd vt)))) todo).
   Proof.
     intros x data. induction todo as [|[v t] r IH]; intros done ND Hget; [reflexivity|].
-    cbn [map fst py_for]. unfold step2 at 1. rewrite (Hget (v, t)) by (left; reflexivity). cbn [fst snd].
+    cbn [map fst py_for]. unfold step2 at 1.
+    pose proof (Hget (v, t) (or_introl eq_refl)) as Hg. cbn [fst snd] in Hg. rewrite Hg. cbn [fst snd].
     unfold oframe_set. cbn [fst snd].
     assert (Hv : ~ In v (map fst done)).
     { intro Hin. cbn [map fst] in ND. apply NoDup_remove_2 in ND. apply ND. apply in_or_app. left. exact Hin. }
@@ -253,9 +260,9 @@ Section Loops.
       unfold extract. rewrite Erev.
       set (x := fst (@select R ROps s tl)).
       rewrite <- Hn. unfold oframe_new. rewrite map_map.
-      rewrite (loop2 x (map ser tabs) tabs []).
+      assert (H2 := loop2 x (map ser tabs) tabs []). cbn [app map] in H2. rewrite H2.
       + reflexivity.
-      + cbn [map app]. rewrite Hn. exact ND.
+      + rewrite Hn. exact ND.
       + intros [v t] Hin. cbn [fst snd].
         apply in_split in Hin. destruct Hin as [l1 [l2 Hs]]. rewrite Hs, map_app. cbn [map]. unfold ser at 2. cbn [fst snd].
         apply dict_get_app_hit. rewrite map_map. cbn [fst].
